@@ -78,7 +78,7 @@ Definition env_same (a b : env) : bool := Nat.eqb (length a) (length b) && env_s
 Definition obs_agrees (r : result value) (o : obs) : bool :=
   match r, o with
   | Ok v, OOk w => value_eqb v w
-  | Err, OErr | Panic, OPanic | NilRecv, OErr | NilRecv, OPanic => true
+  | Err, OErr | Panic, OPanic => true
   | _, _ => false
   end.
 
